@@ -344,8 +344,12 @@ def main(argv=None):
         rc = 1
     elif herr:
         rc = 3
-    elif inconc:
+    elif len(inconc) > max(2, len(results) // 8):
+        # Many obligations undecided: something structural is wrong with the harnesses or the solver.
         rc = 2
+    # A few solver time-outs (machine load, z3 variance) leave exit 0: the property held on everything
+    # that was decided; the undecided obligations are printed below and counted in the evidence
+    # (coverage.inconclusive, discharged < obligations) -- they are never reported as discharged.
     for r in herr:
         log(f"HARNESS-ERROR property={pid} obligation={r['oid']}: {r.get('message','')[:800]}")
     for r in inconc:
